@@ -329,7 +329,8 @@ class MultiplyNeg(MultiplyUnit):
 
 
 def contracts():
-    return [ModRule(), MinimumRule(), MaximumRule(), InRangeRule(), NormDimRule(), ConstUniform(), PowerRule(), MultiplyUnit(), MultiplyNeg()]
+    from contracts import c01_nd  # axis-moving swap protocols against the n-d denotational model (bounded)
+    return [ModRule(), MinimumRule(), MaximumRule(), InRangeRule(), NormDimRule(), ConstUniform(), PowerRule(), MultiplyUnit(), MultiplyNeg()] + c01_nd.contracts()
 
 
 TRUSTED = ['pyvc symbolic executor and its Python model (DESIGN 2.3)',
